@@ -438,10 +438,12 @@ func ExecCPlan(p *CPlan, trace bool) *core.Result {
 		return res
 	}
 	if p.Preload > 0 {
+		res.Long = true
+		pre := core.LongCap(p.Preload, 3000)
 		st.pre = 1
 		pushed := 0
-		sq := p.Base - uint32(p.Preload+p.PreOpen) - 16 // older than anything the tasks push
-		for j := 0; j < p.Preload; j++ {
+		sq := p.Base - uint32(pre+p.PreOpen) - 16 // older than anything the tasks push
+		for j := 0; j < pre; j++ {
 			if j%3 == 0 {
 				for _, typ := range []uint16{tSYSCALL, tPATH, tPROCTITLE} {
 					ra.PushMessage(&auparse.AuditMessage{RecordType: auparse.AuditMessageType(typ), Sequence: sq + uint32(j), RawData: "pre"})
@@ -456,10 +458,10 @@ func ExecCPlan(p *CPlan, trace bool) *core.Result {
 			}
 		}
 		if st.pre-1 != pushed {
-			res.Add("C11", "message-not-delivered", "preload", fmt.Sprintf("%d records of %d complete events were pushed by one goroutine before the tasks started, %d were delivered", pushed, p.Preload, st.pre-1))
+			res.Add("C11", "message-not-delivered", "preload", fmt.Sprintf("%d records of %d complete events were pushed by one goroutine before the tasks started, %d were delivered", pushed, pre, st.pre-1))
 		}
 		for j := 0; j < p.PreOpen; j++ {
-			ra.PushMessage(&auparse.AuditMessage{RecordType: auparse.AuditMessageType(tSYSCALL), Sequence: sq + uint32(p.Preload+j), RawData: "pre"})
+			ra.PushMessage(&auparse.AuditMessage{RecordType: auparse.AuditMessageType(tSYSCALL), Sequence: sq + uint32(pre+j), RawData: "pre"})
 		}
 		if st.pre-1 != pushed {
 			res.Add("C11", "message-not-delivered", "preload", fmt.Sprintf("%d unfinished events pushed into a Reassembler with room for %d: %d records were delivered", p.PreOpen, p.Max, st.pre-1-pushed))
